@@ -195,7 +195,8 @@ CLAIMED = {
          "with the same digest, and the lookup helpers / glyph loading are driven on the damaged font. Hand-written decoders "
          "have hostile-input models of their own whose cases are replayed: cmap 4 / 12 iterators (CmapIter), packed deltas "
          "(PackedHostile), (chained) context lookup closure, range coverage and Device tables (ContextClosure), the CFF INDEX "
-         "(Index), simple glyph point data in its OpenType and as-written readings (SimpleGlyph), and the charstring evaluator on "
+         "(Index), CFF DICT tokens (Dict), simple glyph point data in its OpenType and as-written readings (SimpleGlyph), composite "
+         "glyph component records in their full and fast readings (CompositeGlyph), and the charstring evaluator on "
          "Charstring.tla's program family. "
          "Exploration, not proof: tables are reached through the corpus instances of each shape.",
     note="Trusted: TLC; the traversal API as the generic walker (it calls every generated getter); panics are caught as "
